@@ -29,7 +29,7 @@ ASSUMPTIONS = [
 ]
 REACH = {"quick": {"nrow:0": 50, "key:lstr": 100, "key:ustr": 100, "key:str": 300, "multi-key-mixed-dir": 200, "key-all-missing": 50, "desc-nonnumeric": 300, "tag:big": 5, "after-inplace-edit": 500, "grouped-receiver": 300, "key:oint": 100}}
 
-KEY_KINDS = ["bool", "int", "float", "str", "str", "lstr", "ustr", "date", "datetime", "obool", "ostr", "timedelta", "oint", "uint64", "int_be", "float_be", "datetime_be", "date_be", "datetime_ns", "datetime_s", "olist"]
+KEY_KINDS = ["bool", "int", "float", "str", "str", "lstr", "ustr", "date", "datetime", "obool", "ostr", "timedelta", "oint", "uint64", "int_be", "float_be", "datetime_be", "date_be", "datetime_ns", "datetime_s", "olist", "tstr", "tstr"]
 
 def _big_case(rng):
     """Size-dependent paths: > 10000 rows, the longest / distinguishing strings only in the tail."""
